@@ -16,8 +16,9 @@ import (
 // rawStore is a minimal, non-verifying in-memory blobserver.Storage owned by the harness:
 // it stores whatever bytes it is given under the ref (so the harness can tell replicas apart).
 type rawStore struct {
-	mu sync.Mutex
-	m  map[string][]byte
+	mu      sync.Mutex
+	m       map[string][]byte
+	missErr error // what Fetch answers for a blob it does not hold (nil: os.ErrNotExist)
 }
 
 func newRawStore() *rawStore { return &rawStore{m: map[string][]byte{}} }
@@ -29,6 +30,9 @@ func (s *rawStore) Fetch(ctx context.Context, br blob.Ref) (io.ReadCloser, uint3
 	b, ok := s.m[br.String()]
 	s.mu.Unlock()
 	if !ok {
+		if s.missErr != nil {
+			return nil, 0, s.missErr
+		}
 		return nil, 0, os.ErrNotExist
 	}
 	return io.NopCloser(bytes.NewReader(b)), uint32(len(b)), nil
